@@ -73,7 +73,9 @@ var dtSpellings = []string{"2012-02-03", "2012/02/03", "2012-02-03 09:18:15", "2
 	"2012-02-03T18:18:15+09:00", "2012-02-04", "2011-12-31", "2012-02-03 00:00:00", "2012-02-03 09:18:15 +09:00", "2012-02-03T09:18:15-07:00",
 	"1970-01-01", "1969-12-31 23:59:59", "9999-12-31", "2012-02-29", "2016-02-29 12:00:00"}
 var plainSpellings = []string{"", "a", "A", "b", "B", "abc", "ABC", "Abc", "abd", "ab", "x y", "é", "É", "日本", "ü", "-", "+", ".", "e", "1a", "a1",
-	"--1", "1-", "1.2.3", "1e", "e1", "tr", "truee", "yes", "no", "null", "NULL", "on", "1 2", "0x10", "1,000", "٣", "１", "a:b", "[S]A", "abc ", " abc"}
+	"--1", "1-", "1.2.3", "1e", "e1", "tr", "truee", "yes", "no", "null", "NULL", "on", "1 2", "0x10", "1,000", "٣", "１", "a:b", "[S]A", "abc ", " abc",
+	// letters whose upper-case mapping and case folding disagree, next to their ASCII neighbours
+	"i", "I", "\u0131", "\u0130", "ss", "SS", "\u00df", "\u1e9e", "k", "K", "\u212a", "s", "S", "\u017f", "\u01c6", "\u01c5", "\u01c4", "\u03c3", "\u03c2", "\u03a3"}
 
 // StringVal draws a string value and a class label.
 func StringVal(t *rapid.T) (Val, string) {
@@ -149,4 +151,25 @@ func JoinClasses(cs ...string) string {
 		}
 	}
 	return strings.Join(c, "~")
+}
+
+// foldGroups: letters that are "the same letter in another case" under upper-casing, lower-casing or Unicode
+// case folding, but not under all three.
+var foldGroups = [][]string{
+	{"i", "I", "\u0131", "\u0130"},
+	{"ss", "SS", "\u00df", "\u1e9e"},
+	{"k", "K", "\u212a"},
+	{"s", "S", "\u017f"},
+	{"\u01c6", "\u01c5", "\u01c4"},
+	{"\u03c3", "\u03c2", "\u03a3"},
+}
+
+// FoldPair draws two texts that differ at most in such letters (optionally inside a word and padded).
+func FoldPair(t *rapid.T) (Val, Val) {
+	g := pick(t, "foldGroup", foldGroups)
+	pre := pick(t, "foldPrefix", []string{"", "", "a", "Z"})
+	suf := pick(t, "foldSuffix", []string{"", "", "b", "1"})
+	a := pre + pick(t, "foldA", g) + suf
+	b := pre + pick(t, "foldB", g) + suf
+	return val.Str(pad(t, a)), val.Str(pad(t, b))
 }
